@@ -174,3 +174,36 @@ Theorem C07_value_for_path_code_is_model : forall pf st m path, g_fieldSep st <>
   = of_res (value_for_path pf (g_fieldSep st) (VMap m) path).
 Proof. exact value_for_path_code_is_model. Qed.
 Print Assumptions C07_value_for_path_code_is_model.
+
+(* ---- the indexed-path loop valuesForArray (keyvalues.go:203-290: counting loop, look-ahead, recursion into the members
+   of an unindexed list, index selection), translated from the current sources and instantiated with the translated
+   oldValuesForPath, IS the model [values_for_array] (GenProofs/PureG9.v), for keys with non-negative positions - which
+   is what parsePath produces (parse_path_nonneg); for a negative position the translated code panics on the slice
+   expression while the model's nth_z reads member 0 (C07_values_for_array_negative_position_refuted): such a key list
+   cannot reach valuesForArray.  With it, EVERY function below Map.ValuesForPath is translated code: *)
+From Mxj Require Import GenProofs.PureG9.
+
+Theorem C07_values_for_array_code_is_model : forall pf st ks m fuel,
+  g_fieldSep st <> [] -> length ks < fuel -> Forall nonneg_pkey ks ->
+  fn_valuesForArray (run_oldValuesForPath pf st) fuel st (map to_key ks) m = Ret (Ok (values_for_array ks (VMap m))).
+Proof. exact vfa_code_is_model_translated. Qed.
+Print Assumptions C07_values_for_array_code_is_model.
+
+Theorem C07_parse_path_positions_nonneg : forall path ks, parse_path path = Ok ks -> Forall nonneg_pkey ks.
+Proof. exact parse_path_nonneg. Qed.
+Print Assumptions C07_parse_path_positions_nonneg.
+
+Theorem C07_values_for_array_negative_position_refuted :
+  exists pf st ks m fuel, length ks < fuel /\
+    fn_valuesForArray (fun m path sk => old_values_for_path pf (g_fieldSep st) (VMap m) path sk) fuel st (map to_key ks) m
+    <> Ret (Ok (values_for_array ks (VMap m))).
+Proof. exact vfa_code_is_model_negative_position_refuted. Qed.
+Print Assumptions C07_values_for_array_negative_position_refuted.
+
+Theorem C07_values_for_path_code_is_model_full : forall pf st m path subkeys,
+  g_fieldSep st <> [] ->
+  fn_ValuesForPath (run_getSubKeyMap pf st) (run_hasSubKeys st) (run_oldValuesForPath pf st) (run_parsePath st)
+    (run_valuesForArray pf st) st m path subkeys
+  = of_res (values_for_path pf (g_fieldSep st) (VMap m) path subkeys).
+Proof. exact values_for_path_code_is_model_full. Qed.
+Print Assumptions C07_values_for_path_code_is_model_full.
